@@ -183,6 +183,7 @@ class ArrayUnionMatcher(CombinationMatcher):
         # Marks which slots of the score array hold a matching document (a
         # score can legitimately be zero or negative)
         self._has = array("B", (0 for _ in xrange(self._partsize)))
+        self._max_quality = None
         self._docnum = self._min_id()
         self._read_part()
 
@@ -205,6 +206,13 @@ class ArrayUnionMatcher(CombinationMatcher):
             return self._doccount
 
     def _read_part(self):
+        if self._max_quality is None and self.supports_block_quality():
+            # The sub-matchers are read ahead (and may already be exhausted
+            # when someone asks), so take their bounds before reading
+            self._max_quality = sum(m.max_quality() for m
+                                    in self._submatchers
+                                    if m.is_active()) * self._boost
+
         scored = self._scored
         boost = self._boost
         limit = min(self._docnum + self._partsize, self._doccount)
@@ -258,7 +266,7 @@ class ArrayUnionMatcher(CombinationMatcher):
     def max_quality(self):
         # The scores of the sub-matchers are added together, so the bound is
         # the sum (not the maximum) of their bounds
-        return sum(m.max_quality() for m in self._submatchers) * self._boost
+        return self._max_quality
 
     def block_quality(self):
         return max(self._a)
